@@ -27,8 +27,13 @@ PROPS = {
     "C09": dict(
         modules=["Gopki.Props.C09"],
         theorems=["Validate.C09_validate_spec", "Validate.C09_specVerdict_sound", "Validate.old_code_violates_C09"],
-        ops=["validate"],
-        rule="validate: exhaustive profiles (<=3 attributes quick, <=4 thorough) x optional flags x allowOther over {C,O,CN,1.2.3.4,DC(unresolvable)} x "
+        ops=["validate", "pki", "hist"],
+        rule="pki/hist (the clause `a rejected certificate stops the run with an error before anything is generated`): generated forests in which a third of the "
+             "entities have a profile of their own, half of those with a subject constraint derived from the entity's subject (exact, with optional extras, "
+             "one attribute missing, one more required, unrelated); histories in which a profile is edited between runs, and 56 scenarios editing the profile "
+             "of a built root->leaf hierarchy in 7 ways (4 of which the unchanged subject violates) x 4 flag sets x 2 tiers; the model must predict the "
+             "validation error of every run and no file may be written by a rejected run; non-trivial = some profile in the directory constrains the subject; "
+             "validate: exhaustive profiles (<=3 attributes quick, <=4 thorough) x optional flags x allowOther over {C,O,CN,1.2.3.4,DC(unresolvable)} x "
              "subjects over {C,O,CN,1.2.3.4,L} (all of length <=2, every 23rd longer one in quick), profiles without list, plus structured random "
              "cases (subject = profile minus random subset, perturbed); non-trivial = profile has an attribute list; distinct = distinct input JSON",
         exhaustive={"quick": False, "thorough": True},
